@@ -9,12 +9,18 @@
    C02: in the world a kill leaves after ANY prefix of the effects of a build that started from
    any world reached by edits and complete builds, a task is reported unchanged only if its
    products are what its function writes from the dependencies as they are
-   (C05_crash_unchanged_means_current).  Convergence of the recovery build and "tasks reported
-   before the kill are not executed again" are checked by the crash-injection correspondence
-   (every effect boundary of generated builds); see DESIGN. *)
+   (C05_crash_unchanged_means_current).  And the recovery build as a whole
+   (C05_recovery_leaves_current): after a kill at ANY effect boundary - also in the middle of the
+   commits of one task, which leaves that task with rows partly from the killed run and partly
+   from the run before - every task the next build reports as executed or unchanged has in each
+   product what its function writes from the dependencies as they are when that build ends; by
+   C02_current_unique this is the from-scratch result when every task is so reported.  "Tasks
+   reported before the kill are not executed again" and "then stays quiet" are checked by the
+   crash-injection correspondence (every effect boundary of generated builds); see DESIGN. *)
 From Verif Require Import Base.Prelude Base.Graph Model.Sorter Model.Expr Model.Engine Model.Crash.
 From Verif Require Import Proofs.EngineTask Proofs.CrashProofs.
-From Verif Require Import Proofs.EngineHistory Proofs.CrashSafety.
+From Verif Require Import Proofs.EngineHistory Proofs.CrashSafety Proofs.CrashRecovery.
+From Verif Require Import Model.EngineRun.
 
 (* applying all effects of a build gives the world the build returns; a process killed after
    at least that many effects leaves exactly that world *)
@@ -55,12 +61,18 @@ Theorem C05_effect_footprint : forall w e,
   | ECommit t k s => fs (apply_effect w e) = fs w /\
                      forall t' k', (t', k') <> (t, k) ->
                                    dblookup t' k' (db (apply_effect w e)) = dblookup t' k' (db w)
+  | EPurge t ks => fs (apply_effect w e) = fs w /\
+                   (forall t' k', t' <> t -> dblookup t' k' (db (apply_effect w e)) = dblookup t' k' (db w)) /\
+                   (forall k', In k' ks -> dblookup t k' (db (apply_effect w e)) = dblookup t k' (db w))
   | EReport _ _ => apply_effect w e = w
   end.
 Proof.
-  intros w [n c|t k s|t o]; simpl; auto.
+  intros w [n c|t k s|t ks|t o]; simpl; auto.
   - split; auto. intros k Hk. apply lookup_upd_neq. exact Hk.
   - split; auto. intros t' k' H. apply dblookup_dbupd_neq. exact H.
+  - split; auto. split.
+    + intros t' k' H. apply dbpurge_other. exact H.
+    + intros k' H. apply dbpurge_in. exact H.
 Qed.
 
 (* the safety half of the property, for every crash point *)
@@ -83,6 +95,66 @@ Theorem C05_crash_unchanged_means_current :
   current body (crash_world is_word lower body k c ts faults pref w) t.
 Proof. exact crash_unchanged_means_current. Qed.
 
+(* the shape of a crash world: all rows self-consistent, or exactly one task with torn rows -
+   and that task and all its ancestors have completed their functions and are current *)
+Theorem C05_crash_world_shape : forall is_word lower body c ts faults pref w E desel s0,
+  create_dag is_word lower c ts = DagOk E desel ->
+  from_dag (task_ids ts) E (map (fun t => (tid t, tprio t)) ts) = Some s0 ->
+  NoDup (task_ids ts) ->
+  (forall t, In t ts -> wf_task t) -> (forall t, In t ts -> m_persist t = false) ->
+  (forall i, good_fault (faults i)) ->
+  all_sc body ts w ->
+  forall k, let wc := crash_world is_word lower body k c ts faults pref w in
+  all_sc body ts wc \/
+  exists tstar, In tstar ts /\
+    (forall t, In t ts -> t <> tstar -> SC body wc t) /\
+    (forall u, In u ts -> u = tstar \/ Reach E (tid u) (tid tstar) -> current body wc u).
+Proof. exact crash_world_shape. Qed.
+
+(* kill anywhere, then build again (no function fails in the recovery build; it may run under
+   another configuration as long as the project is accepted with the same graph): what the
+   recovery build reports as executed or unchanged is current when it ends *)
+Theorem C05_recovery_leaves_current :
+  forall is_word lower body defn c0 c1 ts E desel0 desel1 s0 faults pref0 pref1 k w,
+  hreach is_word lower body defn w -> project_ok defn ts ->
+  create_dag is_word lower c0 ts = DagOk E desel0 ->
+  create_dag is_word lower c1 ts = DagOk E desel1 ->
+  from_dag (task_ids ts) E (map (fun t => (tid t, tprio t)) ts) = Some s0 ->
+  NoDup (task_ids ts) ->
+  (forall t, In t ts -> wf_task t) -> (forall t, In t ts -> m_persist t = false) ->
+  (forall i, good_fault (faults i)) ->
+  let wc := crash_world is_word lower body k c0 ts faults pref0 w in
+  let r := build is_word lower body c1 ts nofaults pref1 wc in
+  forall t o, In t ts -> In (tid t, o) (x_reports r) -> fresh_outcome o -> current body (x_world r) t.
+Proof.
+  intros is_word lower body defn c0 c1 ts E desel0 desel1 s0 faults pref0 pref1 k w R PO HD0 HD1 HF ND WF NP GF.
+  apply (crash_then_recovery is_word lower body c0 c1 ts E desel0 desel1 s0 faults pref0 pref1 k w); auto.
+  intros t T. apply (history_sc is_word lower body defn w t R (PO t T) (NP t T) (WF t T)).
+Qed.
+
+(* a torn crash world exists and the recovery build repairs it: t1 writes 111 from 101, t2 writes
+   112 from 111; after a complete build 101 is edited and the next build is killed after 10 effects -
+   t2's own row and its row for 111 are from the killed run, its row for 112 from the run before
+   (the rows (2,2) (2,111) (2,112) in the second observation); the recovery build reports t1
+   unchanged (3), executes t2 (0) and ends with all rows and files as the uninterrupted build
+   would have left them *)
+Local Open Scope N_scope.
+Example C05_torn_rows_recovered :
+  let t1 := mkTask 1 1 [101] [111] [] None false [] false 0%Z [] [] in
+  let t2 := mkTask 2 1 [111] [112] [] None false [] false 0%Z [] [] in
+  let cfg := mkConfig false false None None None in
+  let killed := run_hist [] [] [HSet 101 5; HBuild cfg [t2; t1] [] []; HSet 101 6; HCrash 10 cfg [t2; t1] [] [];
+                                HBuild cfg [t2; t1] [] []] in
+  let whole := run_hist [] [] [HSet 101 5; HBuild cfg [t2; t1] [] []; HSet 101 6; HBuild cfg [t2; t1] [] []] in
+  map (fun o => match o with (x, r, _, _, _, e) => (x, r, length e) end) killed
+    = [(0, [(1, 0); (2, 0)], 12%nat); (9, [], 10%nat); (0, [(1, 3); (2, 0)], 7%nat)] /\
+  map (fun o => match o with (_, _, _, d, f, _) => (d, f) end) (skipn 2 killed) =
+  map (fun o => match o with (_, _, _, d, f, _) => (d, f) end) (skipn 1 whole).
+Proof. vm_compute. split; reflexivity. Qed.
+Local Close Scope N_scope.
+
+Print Assumptions C05_crash_world_shape.
+Print Assumptions C05_recovery_leaves_current.
 Print Assumptions C05_effects_refine_build.
 Print Assumptions C05_task_effects_refine.
 Print Assumptions C05_crash_world_complete.
